@@ -84,6 +84,8 @@ MC_STABLE = {"module": "MC_Stable", "quick": "MC_Stable_quick.cfg", "thorough": 
 MC_TRIO = [{"module": "MC_Trio", "quick": "MC_Trio_quick.cfg", "thorough": "MC_Trio_ramps.cfg", "workers": 6, "timeout": {"quick": 600, "thorough": 3000}},
            {"module": "MC_Trio", "quick": "MC_Trio_pool.cfg", "thorough": "MC_Trio_pool.cfg", "workers": 6, "timeout": {"quick": 600, "thorough": 3000}}]
 
+POOL_STABLE = {"suite": "pool", "trace": "Trace_Pool", "cfg": "Trace_Pool.cfg", "extra": {"kind": "stable"},
+               "quick": {"runs": 64, "ops": 30}, "thorough": {"runs": 2000, "ops": 40}, "procs": 8}
 ROUTE_SUITE = {"suite": "route", "trace": "Trace_Router", "cfg": "Trace_Router.cfg",
                "quick": {"runs": 24, "ops": 60}, "thorough": {"runs": 600, "ops": 120}, "procs": 6}
 MC_ROUTER = {"module": "MC_Router", "quick": "MC_Router.cfg", "thorough": "MC_Router.cfg", "workers": 4}
@@ -91,7 +93,7 @@ MC_ROUTER = {"module": "MC_Router", "quick": "MC_Router.cfg", "thorough": "MC_Ro
 PROPS = {
     "C01": {"mc": [MC_POOL], "suites": [POOL_SUITE]},
     "C02": {"mc": [MC_CPMATH], "suites": [MATH_CP, POOL_SUITE]},
-    "C03": {"mc": [MC_STABLE], "suites": [MATH_ST2]},
+    "C03": {"mc": [MC_STABLE], "suites": [MATH_ST2, POOL_STABLE]},
     "C04": {"mc": [MC_STABLE] + MC_TRIO, "suites": [MATH_ST3, TRIO_SUITE]},
     "C05": {"mc": [MC_VAULT], "suites": [VAULT_SUITE]},
     "C06": {"mc": [MC_VAULT], "suites": [VAULT_SUITE]},
@@ -120,6 +122,6 @@ PROPS = {
     "C11": {"mc": MC_INC, "suites": [INC_SCHED, INC_RANDOM]},
     "C12": {"mc": MC_INC, "suites": [INC_SCHED, INC_RANDOM]},
     "C13": {"mc": MC_INC, "suites": [INC_SCHED, INC_RANDOM, MATH_WEIGHT]},
-    "C14": {"mc": [MC_POOL, MC_VAULT, MC_ROUTER], "suites": [POOL_SUITE, VAULT_SUITE, ROUTE_SUITE, TRIO_SUITE]},
+    "C14": {"mc": [MC_POOL, MC_VAULT, MC_ROUTER], "suites": [POOL_SUITE, VAULT_SUITE, ROUTE_SUITE, TRIO_SUITE, POOL_STABLE]},
     "C15": {"mc": [MC_POOL, MC_ROUTER], "suites": [POOL_SUITE, MATH_SPREAD, ROUTE_SUITE]},
 }
